@@ -123,7 +123,7 @@ pub fn opaque_sizes(big: bool) -> Vec<usize> {
 pub fn certificate_body(w: &mut W, certs: &[usize]) {
     w.block(3, "cert_list_len", |w| {
         for (i, &c) in certs.iter().enumerate() {
-            w.block(3, "cert_len", |w| fill(w, c, 0x30 + i as u8));
+            w.block(3, "cert_len", |w| fill(w, c, 0x30u8.wrapping_add(i as u8)));
         }
     });
 }
@@ -143,7 +143,7 @@ pub fn certificate_request_body(w: &mut W, ntypes: usize, algs: Option<usize>, d
     }
     w.block(2, "ca_len", |w| {
         for (i, &d) in dns.iter().enumerate() {
-            w.block(2, "dn_len", |w| fill(w, d, 0x60 + i as u8));
+            w.block(2, "dn_len", |w| fill(w, d, 0x60u8.wrapping_add(i as u8)));
         }
     });
 }
@@ -435,6 +435,12 @@ pub fn tls_records(max_msgs: usize, big: bool) -> Vec<W> {
         v.push(record(ty, ver, |_| {}));
     }
     if big {
+        for n in [16383usize, 16384, 16385, 16639] {
+            v.push(record(0x17, ver, |w| fill(w, n, 0x17)));
+            v.push(record(0x16, ver, |w| {
+                w.append(&hs(20, |w| fill(w, n - 4, 0xf1)));
+            }));
+        }
         v.push(record(0x17, ver, |w| fill(w, 16640, 0x17)));
         v.push(record(0x14, ver, |w| {
             for _ in 0..16640 {
@@ -996,6 +1002,135 @@ pub fn sct_lists(big: bool) -> Vec<W> {
             sct_entry(w, 0, 7, 30000, 4, 3, 30000);
         });
         v.push(w);
+    }
+    v
+}
+
+// ---------------------------------------------------------------- repetition at scale
+
+/// Counts at which repeated elements are tried: around 2^8 and towards the limit of the container.
+pub const MANY: [usize; 5] = [255, 256, 257, 1000, 4000];
+
+/// Extension blocks with many (empty, mostly unassigned-type) extensions.
+pub fn extension_lists_many() -> Vec<W> {
+    let mut v = Vec::new();
+    for n in MANY.iter().copied().chain([16383]) {
+        let mut w = W::new();
+        for i in 0..n {
+            // unassigned types only (stay clear of the known ones and of GREASE)
+            w.append(&ext_with(0x4000 + (i as u16 & 0x0fff), &[]));
+        }
+        v.push(w);
+    }
+    // many real extensions of mixed kinds
+    let k = known_extensions();
+    let mut w = W::new();
+    for i in 0..300 {
+        let e = &k[i % 60];
+        if e.buf.len() < 64 {
+            w.append(e);
+        }
+    }
+    v.push(w);
+    v
+}
+
+/// Handshake messages and extensions whose inner lists hold many elements.
+pub fn handshake_many() -> Vec<W> {
+    let mut v = Vec::new();
+    for n in MANY {
+        v.push(hs(11, |w| certificate_body(w, &vec![0usize; n])));
+        v.push(hs(11, |w| certificate_body(w, &vec![1usize; n])));
+        v.push(hs(13, |w| certificate_request_body(w, 3, Some(n), &vec![0usize; n])));
+        v.push(hs(13, |w| certificate_request_body(w, 1, None, &vec![2usize; n])));
+    }
+    v
+}
+
+pub fn extensions_many() -> Vec<W> {
+    let mut v = Vec::new();
+    for n in MANY {
+        v.push(ext(0, |w| {
+            w.block(2, "sni_list_len", |w| {
+                for i in 0..n {
+                    w.u8((i % 3) as u8);
+                    w.block(2, "sni_name_len", |w| fill(w, i % 2, b'a'));
+                }
+            });
+        }));
+        v.push(ext(16, |w| {
+            w.block(2, "alpn_list_len", |w| {
+                for i in 0..n {
+                    w.block(1, "proto_len", |w| fill(w, 1 + i % 2, b'h'));
+                }
+            });
+        }));
+        v.push(ext(48, |w| {
+            w.block(2, "filters_len", |w| {
+                for i in 0..n {
+                    w.block(1, "oid_len", |w| fill(w, i % 2, 0x55));
+                    w.block(2, "oid_val_len", |w| fill(w, i % 3, 0x04));
+                }
+            });
+        }));
+    }
+    v
+}
+
+pub fn sct_lists_many() -> Vec<W> {
+    let mut v = Vec::new();
+    // an SCT entry is at least 49 bytes: 1285 entries of 51 bytes fill the u16 list length
+    for n in [255usize, 256, 257, 1000, 1285] {
+        let mut w = W::new();
+        w.block(2, "sct_list_len", |w| {
+            for i in 0..n {
+                sct_entry(w, (i % 2) as u8, i as u64, 0, 4, 3, 2);
+            }
+        });
+        v.push(w);
+    }
+    v
+}
+
+/// Buffers holding many records (TLS, then DTLS): (count, bytes)
+pub fn many_records() -> Vec<(usize, Vec<u8>, bool)> {
+    let mut v = Vec::new();
+    for n in [5usize, 6, 7, 8, 15, 100, 255, 256, 257, 1000] {
+        for kind in 0..4 {
+            let mut b = Vec::new();
+            for i in 0..n {
+                let r = match kind {
+                    0 => record(0x17, 0x0303, |_| {}),
+                    1 => record(0x14, 0x0303, |w| {
+                        w.u8(1);
+                    }),
+                    2 => record(0x16, 0x0303, |w| {
+                        w.bytes(&[0, 0, 0, 0]);
+                    }),
+                    _ => {
+                        if i % 2 == 0 {
+                            record(0x17, 0x0303, |_| {})
+                        } else {
+                            record(0x15, 0x0303, |w| {
+                                w.u8(1).u8(0);
+                            })
+                        }
+                    }
+                };
+                b.extend_from_slice(&r.buf);
+            }
+            v.push((n, b, false));
+        }
+        let mut b = Vec::new();
+        for i in 0..n {
+            b.extend_from_slice(
+                &dtls_record(0x14, 0xfefd, 0, i as u64, |w| {
+                    w.u8(1);
+                })
+                .buf,
+            );
+        }
+        v.push((n, b, true));
     }
     v
 }
